@@ -139,6 +139,12 @@ FEATURES = {
                             "paths": {"/things": {"get": {"operationId": "getThing", "responses": {"200": {"description": "ok", "content": {"application/json": {"schema": S("Thing")}}}}},
                                                   "post": {"operationId": "postThing", "requestBody": {"required": True, "content": {"application/json": {"schema": S("Thing")}}}, "responses": {"204": {"description": "ok"}}}},
                                       "/things/{id}": {"delete": {"operationId": "deleteThing", "parameters": [{"name": "id", "in": "path", "required": True, "schema": {"type": "string"}}], "responses": {"204": {"description": "ok"}}}}}},
+    # OPTIONAL members named like the locals of the Validate derive's expansion (`errors`, `entry`) that carry a validator
+    "validator-local-names": featgen.wrap({"Detail": OBJ({"code": {"type": "string", "minLength": 1}}, ["code"]),
+                                           "A": OBJ({"errors": {"type": "array", "minItems": 1, "items": {"type": "string"}}, "entry": S("Detail"),
+                                                     "field": {"type": "string", "maxLength": 9}, "result": S("Detail")}),
+                                           "B": OBJ({"errors": {"type": "array", "minItems": 1, "items": {"type": "string"}}, "entry": S("Detail")}, ["errors", "entry"])},
+                                          body="A", resp="B"),
     # helper constructors of unions / Known-Other enums whose member names differ only in case or separators
     "helper-name-collisions": featgen.wrap({"Region": {"anyOf": [{"type": "string", "enum": ["eu-west", "EU-WEST", "eu_west", "us"]}, {"type": "string"}]},
                                             "Kind": {"anyOf": [{"type": "string", "enum": ["a-b", "a_b", "A B"]}, {"type": "string"}]},
